@@ -213,10 +213,19 @@ def streams_for(prop, seed, tier, boost=1):
         ops += ['hrt %02x' % b for b in range(256)] + ['hrt ' + genmod.hx(bytes(g.rnd.randrange(256) for _ in range(g.rnd.randint(1, 40)))) for _ in range(100 * k)]
         add('henc', ops)
         add('henc-extra', genmod.huff_extra_stream(G('hx')))
+        add('henc-debuglog', genmod.with_debug_log(['henc %02x' % b for b in range(256)] + ['hrt ' + genmod.hx(bytes(range(256)))] +
+                                                   ['henc ' + genmod.hx(bytes(g.rnd.randrange(256) for _ in range(20))) for _ in range(40)]))
+        mixed = []
+        for j in range(120 * k):          # rejected inputs (incomplete, EOS, bad padding) between round trips, one process
+            mixed.append(g.rnd.choice(['hdec 1c', 'hdec ffffffff', 'hdec 00', 'hdec 1e', 'hdec ' + genmod.hx(bytes(g.rnd.randrange(256) for _ in range(3)))]))
+            mixed.append('hrt ' + genmod.hx(bytes(g.rnd.choice(b'custom-key0123abc') for _ in range(g.rnd.randint(1, 12)))))
+        add('henc-after-rejects', mixed)
     elif prop == 'C13':
         add('hdec', G('hdec').hdec_stream(n_random=400 * k))
         add('hdec-transitions', genmod.huff_transition_catalogue())
         add('hdec-shared-buffer', genmod.hdec_shared_stream(G('hs'), n=80 * k))
+        rep = G('hdec2').hdec_stream(n_random=150 * k)
+        add('hdec-repeated-in-one-process', rep + rep[::-1] + rep)
         if T:
             add('hdec-exhaustive', G('x').hdec_exhaustive())
     elif prop in ('C06', 'C14'):
